@@ -147,6 +147,10 @@ def conditioned(spec, data):
         elif sp[0] == "bin":
             if sp[1] == "truediv" and (np.asarray(oracle(sp[3], data), dtype=float) == 0).any():
                 raise IllConditioned("division by zero")
+            if sp[1] == "pow" and sp[3][0] != "const" and (np.asarray(oracle(sp[2], data), dtype=float) < 0).any():
+                # x ** y with x < 0 is defined only at integer y: a computed exponent one ulp off an integer (funsor evaluates
+                # a / a as a * (1 / a)) turns the value into nan -- a discontinuity of the function, not of the compiler
+                raise IllConditioned("negative base with a computed exponent")
             go(sp[2])
             go(sp[3])
 
